@@ -17,6 +17,7 @@ import os
 from fractions import Fraction
 
 from .. import translate
+from . import normalize
 from ..translate import Untranslatable
 
 BOOT = "fairlearn/metrics/_bootstrap.py"
@@ -27,9 +28,59 @@ METHODS = ("linear", "lower", "higher", "nearest", "midpoint")
 def _parse(repo, rel):
     try:
         with open(os.path.join(repo, rel)) as f:
-            return ast.parse(f.read())
+            return normalize.parse(f.read())
     except (OSError, SyntaxError) as e:
         raise Untranslatable(f"{rel}: {e}")
+
+
+# locals of the anchored functions in order of first binding, in the source the matchers below were written against
+# (normalize.canon_tree: new pure temporaries inlined into their only consumer, locals alpha-renamed to these names)
+PINNED_BOOT = {
+    "generate_single_bootstrap_sample": ["sampled_data", "result"],
+    "generate_bootstrap_samples": ["generator", "rs", "result", "i", "nxt"],
+    "_calc_series_quantiles": ["s", "result_np", "ve", "result", "i", "nxt"],
+    "_calc_dataframe_quantiles": ["s", "result_np", "ve", "result", "i", "nxt"],
+    "_align_sample_indices": ["sample", "all_indices", "x", "y", "outer_common_index"],
+    "calculate_pandas_quantiles": ["result"],
+}
+PINNED_MF = {
+    "MetricFrame.__init__": ["y_t", "y_p", "all_data", "annotated_funcs", "sf_list", "x", "cf_list", "name", "sf", "cf", "nameset",
+                             "namelist", "result", "_ci", "_bootstrap_samples"],
+    "MetricFrame._populate_results_ci": ["x", "result_overall", "result_group", "group_functions", "k", "v", "c_t", "c_m", "r",
+                                         "raw_samples", "samples", "raw_result", "result"],
+    "MetricFrame._group_ci": ["r", "samples", "raw_result", "x", "result"],
+}
+
+
+def _stores(fn, name):
+    return [n for n in ast.walk(fn) if isinstance(n, ast.Name) and n.id == name and isinstance(n.ctx, (ast.Store, ast.Del))]
+
+
+def _resolve(fn, node, depth=0):
+    """a local `t` that the function binds exactly once, by a top-level `t = <side-effect free expression>` over names the
+    function never rebinds, denotes that expression wherever it is read afterwards: `t` -> the expression"""
+    if not isinstance(node, ast.Name) or depth > 4:
+        return node
+    args = {a.arg for a in normalize._all_args(fn)}
+    defs = [s for s in fn.body if isinstance(s, ast.Assign) and len(s.targets) == 1 and isinstance(s.targets[0], ast.Name)
+            and s.targets[0].id == node.id]
+    if node.id in args or len(defs) != 1 or len(_stores(fn, node.id)) != 1 or not normalize.is_pure_expr(defs[0].value):
+        return node
+    if any(isinstance(n, ast.Name) and _stores(fn, n.id) for n in ast.walk(defs[0].value)):
+        return node
+    return _resolve(fn, defs[0].value, depth + 1)
+
+
+def _bind(call, params, where):
+    """arguments of `call` by parameter name (positional arguments bound against `params`)"""
+    if len(call.args) > len(params) or any(isinstance(a, ast.Starred) for a in call.args):
+        raise Untranslatable(f"{where}: cannot bind the arguments of `{ast.unparse(call)[:80]}`")
+    out = dict(zip(params, call.args))
+    for k in call.keywords:
+        if k.arg is None or k.arg in out:
+            raise Untranslatable(f"{where}: cannot bind the arguments of `{ast.unparse(call)[:80]}`")
+        out[k.arg] = k.value
+    return out
 
 
 def _func(tree, name, rel=BOOT):
@@ -110,14 +161,30 @@ def _single(tree):
     ign = _const(kw["ignore_index"], "data.sample ignore_index", (bool,)) if "ignore_index" in kw else False
     if "random_state" not in kw or ast.unparse(kw["random_state"]) != "random_state" or "random_state" not in _params(fn):
         raise Untranslatable("data.sample: random_state= is not the function's own `random_state` parameter")
-    # the sampled frame must be what DisaggregatedResult.create gets
-    tgt = [s for s in fn.body if isinstance(s, ast.Assign) and s.value is c]
-    if len(tgt) != 1 or len(tgt[0].targets) != 1 or not isinstance(tgt[0].targets[0], ast.Name):
-        raise Untranslatable("generate_single_bootstrap_sample: the sample is not bound to one local name")
-    nm = tgt[0].targets[0].id
+    # the sampled frame must be what DisaggregatedResult.create gets (through one local name, or directly)
     cr = _calls(fn, lambda x: ast.unparse(x.func) == "DisaggregatedResult.create")
-    if len(cr) != 1 or {k.arg: ast.unparse(k.value) for k in cr[0].keywords}.get("data") != nm:
+    if len(cr) != 1:
         raise Untranslatable("generate_single_bootstrap_sample: DisaggregatedResult.create(data=<the sample>) not found")
+    dkw = [k.value for k in cr[0].keywords if k.arg == "data"]
+    if len(dkw) == 1 and dkw[0] is c:
+        pass
+    else:
+        tgt = [s for s in fn.body if isinstance(s, ast.Assign) and s.value is c]
+        if len(tgt) != 1 or len(tgt[0].targets) != 1 or not isinstance(tgt[0].targets[0], ast.Name):
+            raise Untranslatable("generate_single_bootstrap_sample: the sample is not bound to one local name")
+        nm = tgt[0].targets[0].id
+        if len(dkw) != 1 or ast.unparse(dkw[0]) != nm or len(_stores(fn, nm)) != 1:
+            raise Untranslatable("generate_single_bootstrap_sample: DisaggregatedResult.create(data=<the sample>) not found")
+    # ... and its result is what the function returns
+    rets = [s for s in ast.walk(fn) if isinstance(s, ast.Return)]
+    if len(rets) != 1 or rets[0] is not fn.body[-1]:
+        raise Untranslatable("generate_single_bootstrap_sample: expected one final return")
+    rv = rets[0].value
+    if rv is not cr[0]:
+        rb = [s for s in fn.body if isinstance(s, ast.Assign) and s.value is cr[0] and len(s.targets) == 1
+              and isinstance(s.targets[0], ast.Name)]
+        if len(rb) != 1 or not isinstance(rv, ast.Name) or rv.id != rb[0].targets[0].id or len(_stores(fn, rv.id)) != 1:
+            raise Untranslatable("generate_single_bootstrap_sample: the DisaggregatedResult created is not what is returned")
     return size, replace, axis, ign
 
 
@@ -138,7 +205,7 @@ def _stream(tree):
         if not (isinstance(c, ast.Call) and isinstance(c.func, ast.Attribute) and c.func.attr in ("integers", "randint")) or c.args:
             raise Untranslatable(f"generate_bootstrap_samples: seed stream is not <gen>.integers(..)/randint(..): `{ast.unparse(c)[:80]}`")
         kw = _kw(c, "seed stream", ("low", "high", "size", "dtype"))
-        shapes.add(tuple(sorted((k, ast.unparse(v)) for k, v in kw.items())))
+        shapes.add(tuple(sorted((k, ast.unparse(_resolve(fn, v))) for k, v in kw.items())))
     if len(shapes) != 1:
         raise Untranslatable("generate_bootstrap_samples: the branches draw differently shaped seed streams")
     shape = dict(next(iter(shapes)))
@@ -149,10 +216,16 @@ def _stream(tree):
         raise Untranslatable("generate_bootstrap_samples: seed stream without size=")
     # integer branch: default_rng(seed=random_state)
     int_ok = False
+    rngs = ("np.random.default_rng(seed=random_state)", "np.random.default_rng(random_state)")
     for s in ast.walk(fn):
         if isinstance(s, ast.If) and ast.unparse(s.test) == "isinstance(random_state, int)":
             txt = [ast.unparse(x) for x in s.body]
-            if txt and txt[0] in ("generator = np.random.default_rng(seed=random_state)", "generator = np.random.default_rng(random_state)"):
+            mine = [a for a in assigns if any(a is x for x in s.body)]
+            if len(txt) == 2 and txt[0] in tuple("generator = " + r for r in rngs) and len(mine) == 1 and mine[0] is s.body[1] \
+                    and ast.unparse(mine[0].value.func.value) == "generator":
+                int_ok = True
+            # the generator used on the spot: `rs = np.random.default_rng(seed=random_state).integers(..)`
+            if len(txt) == 1 and len(mine) == 1 and ast.unparse(mine[0].value.func.value) in rngs:
                 int_ok = True
     if not int_ok:
         raise Untranslatable("generate_bootstrap_samples: integer seeds no longer go through np.random.default_rng(seed=random_state)")
@@ -196,6 +269,17 @@ def _stream(tree):
     ret = [s for s in fn.body if isinstance(s, ast.Return)]
     if len(app) != 1 or len(ret) != 1 or ast.unparse(ret[0].value) != "result":
         raise Untranslatable("generate_bootstrap_samples: samples are not collected by result.append / return result")
+    inits = [ast.unparse(s) for s in ast.walk(fn) if isinstance(s, (ast.Assign, ast.AugAssign)) and "result" in
+             [ast.unparse(t) for t in (s.targets if isinstance(s, ast.Assign) else [s.target])]]
+    if inits != ["result = []"] or len(_stores(fn, "result")) != 1:
+        raise Untranslatable("generate_bootstrap_samples: `result` is not one list initialised by `result = []`")
+    if len(app[0].args) != 1 or app[0].keywords:
+        raise Untranslatable("generate_bootstrap_samples: result.append(..) of unknown shape")
+    if app[0].args[0] is not cs[0]:
+        bound = [s for s in lp.body if isinstance(s, ast.Assign) and s.value is cs[0] and len(s.targets) == 1
+                 and isinstance(s.targets[0], ast.Name)]
+        if len(bound) != 1 or ast.unparse(app[0].args[0]) != bound[0].targets[0].id or len(_stores(fn, bound[0].targets[0].id)) != 1:
+            raise Untranslatable("generate_bootstrap_samples: the sample drawn is not the sample appended")
     return size_is_n, loop_off, seed
 
 
@@ -211,9 +295,13 @@ def _quantile_fn(tree, name, frame):
     f = ast.unparse(c.func)
     if "percentile" in f:
         raise Untranslatable(f"{name}: percentile instead of quantile")
-    if len(c.args) != 1 or ast.unparse(c.args[0]) != "samples":
+    if len(c.args) not in (1, 2) or ast.unparse(c.args[0]) != "samples" or any(isinstance(a, ast.Starred) for a in c.args):
         raise Untranslatable(f"{name}: the first argument of {f} is not `samples`")
     kw = _kw(c, f, ("q", "axis", "method", "interpolation"))
+    if len(c.args) == 2:        # np.quantile(a, q, ..): the second positional argument is q
+        if "q" in kw:
+            raise Untranslatable(f"{name}: q given twice")
+        kw["q"] = c.args[1]
     if "q" not in kw:
         raise Untranslatable(f"{name}: no q=")
     qt = ast.unparse(kw["q"])
@@ -259,7 +347,9 @@ def _quantile_fn(tree, name, frame):
         raise Untranslatable(f"{name}: {ctor} keywords changed: {sorted(kk)}")
     ap = _calls(lp, lambda x: ast.unparse(x.func) == "result.append")
     bound = [s for s in lp.body if isinstance(s, ast.Assign) and s.value is mk[0]]
-    if len(ap) != 1 or len(bound) != 1 or ast.unparse(ap[0].args[0]) != ast.unparse(bound[0].targets[0]):
+    if len(ap) != 1 or len(ap[0].args) != 1 or ap[0].keywords:
+        raise Untranslatable(f"{name}: the entry built is not the entry appended")
+    if ap[0].args[0] is not mk[0] and (len(bound) != 1 or ast.unparse(ap[0].args[0]) != ast.unparse(bound[0].targets[0])):
         raise Untranslatable(f"{name}: the entry built is not the entry appended")
     ret = [s for s in fn.body if isinstance(s, ast.Return)]
     if len(ret) != 1 or ast.unparse(ret[0].value) != "result":
@@ -268,13 +358,28 @@ def _quantile_fn(tree, name, frame):
 
 
 def _align(tree):
+    """`_align_sample_indices(samples)` returns `[sample.reindex(U) for sample in samples]` with
+    U = reduce(lambda x, y: x.union(y), [sample.index for sample in samples])  (temporaries resolved)"""
     fn = _func(tree, "_align_sample_indices")
-    txt = [ast.unparse(s) for s in fn.body if not (isinstance(s, ast.Expr) and isinstance(s.value, ast.Constant))]
-    want = ["all_indices = [sample.index for sample in samples]",
-            "outer_common_index = reduce(lambda x, y: x.union(y), all_indices)",
-            "samples = [sample.reindex(outer_common_index) for sample in samples]",
-            "return samples"]
-    return txt == want
+    if _params(fn) != ["samples"]:
+        return False
+    rets = [s for s in ast.walk(fn) if isinstance(s, ast.Return)]
+    if len(rets) != 1 or rets[0] is not fn.body[-1] or any(not isinstance(s, (ast.Assign, ast.Return)) for s in fn.body):
+        return False
+    # straight-line code: substitute the (side-effect free) definitions top-down
+    env = {}
+    for st in fn.body[:-1]:
+        if len(st.targets) != 1 or not isinstance(st.targets[0], ast.Name) or not normalize.is_pure_expr(
+                st.value, extra_funcs=("reduce",), extra_methods=("union", "reindex")):
+            return False
+        env[st.targets[0].id] = normalize._Subst(dict(env)).visit(normalize.copy.deepcopy(st.value))
+    inner = {a.arg for n in ast.walk(fn) if isinstance(n, ast.Lambda) for a in normalize._all_args(n)} | \
+        {m.id for n in ast.walk(fn) if isinstance(n, ast.comprehension) for m in ast.walk(n.target) if isinstance(m, ast.Name)}
+    if inner & set(env):
+        return False
+    out = normalize._Subst(dict(env)).visit(normalize.copy.deepcopy(rets[0].value))
+    want = "[sample.reindex(reduce(lambda x, y: x.union(y), [sample.index for sample in samples])) for sample in samples]"
+    return ast.unparse(out) == want
 
 
 def _dispatch(tree):
@@ -286,15 +391,38 @@ def _dispatch(tree):
     if len(ifs) != 1:
         raise Untranslatable("calculate_pandas_quantiles: expected one if/elif dispatch")
     s = ifs[0]
-    ok = ast.unparse(s.test) == "isinstance(bootstrap_samples[0], pd.Series)" and \
-        [ast.unparse(x) for x in s.body] == ["result = _calc_series_quantiles(quantiles=quantiles, samples=bootstrap_samples)"] and \
-        len(s.orelse) == 1 and isinstance(s.orelse[0], ast.If) and \
-        ast.unparse(s.orelse[0].test) == "isinstance(bootstrap_samples[0], pd.DataFrame)" and \
-        [ast.unparse(x) for x in s.orelse[0].body] == ["result = _calc_dataframe_quantiles(quantiles=quantiles, samples=bootstrap_samples)"]
+
+    def test_of(node):
+        t = node.test
+        if isinstance(t, ast.Call) and ast.unparse(t.func) == "isinstance" and len(t.args) == 2 and not t.keywords:
+            return f"isinstance({ast.unparse(_resolve(fn, t.args[0]))}, {ast.unparse(t.args[1])})"
+        return ast.unparse(t)
+
+    def branch(body):
+        """`result = <call>` (returned at the end) or `return <call>` -> the call's text, and which of the two"""
+        if len(body) == 1 and isinstance(body[0], ast.Assign) and len(body[0].targets) == 1 and isinstance(body[0].targets[0], ast.Name):
+            return ast.unparse(body[0].value), "assign:" + body[0].targets[0].id
+        if len(body) == 1 and isinstance(body[0], ast.Return) and body[0].value is not None:
+            return ast.unparse(body[0].value), "return"
+        return None, None
+    ok = test_of(s) == "isinstance(bootstrap_samples[0], pd.Series)" and len(s.orelse) == 1 and isinstance(s.orelse[0], ast.If) \
+        and test_of(s.orelse[0]) == "isinstance(bootstrap_samples[0], pd.DataFrame)"
+    if ok:
+        (c1, k1), (c2, k2) = branch(s.body), branch(s.orelse[0].body)
+        ok = c1 == "_calc_series_quantiles(quantiles=quantiles, samples=bootstrap_samples)" and \
+            c2 == "_calc_dataframe_quantiles(quantiles=quantiles, samples=bootstrap_samples)" and k1 == k2
     if not ok:
         raise Untranslatable("calculate_pandas_quantiles: dispatch on Series / DataFrame changed")
+    if any(_stores(fn, p) for p in ps[:2]):
+        raise Untranslatable("calculate_pandas_quantiles: a parameter is rebound")
     ret = [x for x in fn.body if isinstance(x, ast.Return)]
-    if len(ret) != 1 or ast.unparse(ret[0].value) != "result":
+    if k1 == "return":
+        # both branches return; whatever follows the dispatch only runs for other types (today: `assert False`)
+        if ret and any(not (isinstance(x.value, ast.Constant) or x.value is None) for x in ret):
+            raise Untranslatable("calculate_pandas_quantiles: a further return after the dispatch")
+        return
+    res = k1.split(":", 1)[1]
+    if len(ret) != 1 or ast.unparse(ret[0].value) != res or ret[0] is not fn.body[-1] or len(_stores(fn, res)) != 2:
         raise Untranslatable("calculate_pandas_quantiles: does not return result")
 
 
@@ -309,7 +437,19 @@ def _metric_frame(tree):
     if kw.get("data") != "all_data":
         raise Untranslatable("MetricFrame.__init__: the bootstrap does not resample `all_data`")
     pc = _calls(init, lambda c: ast.unparse(c.func) == "self._populate_results_ci")
-    if len(pc) != 1 or [ast.unparse(a) for a in pc[0].args] != ["_bootstrap_samples", "ci_quantiles"]:
+    pparams = [x for x in _params(_method(tree, "MetricFrame", "_populate_results_ci")) if x != "self"]
+    if len(pc) != 1 or pparams[:2] != ["bootstrap_samples", "ci_quantiles"]:
+        raise Untranslatable("MetricFrame.__init__: self._populate_results_ci(_bootstrap_samples, ci_quantiles) not found")
+    pb = _bind(pc[0], pparams, "MetricFrame.__init__")
+    got = pb.get("bootstrap_samples")
+    if got is not cs[0]:
+        # ... through the one local name the samples are bound to
+        tgt = [s for s in ast.walk(init) if isinstance(s, ast.Assign) and s.value is cs[0] and len(s.targets) == 1
+               and isinstance(s.targets[0], ast.Name)]
+        if len(tgt) != 1 or not isinstance(got, ast.Name) or got.id != tgt[0].targets[0].id or len(_stores(init, got.id)) != 1:
+            raise Untranslatable("MetricFrame.__init__: self._populate_results_ci(_bootstrap_samples, ci_quantiles) not found")
+    if set(pb) != {"bootstrap_samples", "ci_quantiles"} or ast.unparse(pb["ci_quantiles"]) != "ci_quantiles" \
+            or "ci_quantiles" not in _params(init) or _stores(init, "ci_quantiles"):
         raise Untranslatable("MetricFrame.__init__: self._populate_results_ci(_bootstrap_samples, ci_quantiles) not found")
     # every calculate_pandas_quantiles call gets `ci_quantiles` itself
     qargs = []
@@ -325,8 +465,9 @@ def _metric_frame(tree):
             if q is None:
                 raise Untranslatable(f"MetricFrame.{mname}: calculate_pandas_quantiles without quantiles")
             qargs.append(ast.unparse(q))
+        gparams = [x for x in _params(_method(tree, "MetricFrame", "_group_ci")) if x != "self"]
         for c in _calls(m, lambda c: ast.unparse(c.func) == "self._group_ci"):
-            k = {x.arg: ast.unparse(x.value) for x in c.keywords}
+            k = {a: ast.unparse(v) for a, v in _bind(c, gparams, f"MetricFrame.{mname}").items()}
             qargs.append(k.get("ci_quantiles", "?"))
     if len(qargs) < 5:
         raise Untranslatable(f"MetricFrame: only {len(qargs)} quantile call sites found")
@@ -354,8 +495,8 @@ def lrat(q):
 
 @translate.lifter
 def bootstrap_src(repo):
-    bt = _parse(repo, BOOT)
-    mf = _parse(repo, MF)
+    bt = normalize.canon_tree(_parse(repo, BOOT), PINNED_BOOT, extra_funcs=("reduce",), extra_methods=("union", "reindex"))
+    mf = normalize.canon_tree(_parse(repo, MF), PINNED_MF)
     size, replace, axis, ign = _single(bt)
     size_is_n, loop_off, seed = _stream(bt)
     ser = _quantile_fn(bt, "_calc_series_quantiles", False)
